@@ -352,6 +352,7 @@ class Interp:
         self.trace_calls = None  # optional list collecting (caller, callee) FuncInfo pairs
         self.on_stmt = None      # optional callback(interp, frame, stmt)
         self.on_recursion = None  # optional callback(interp, fi, args, kwargs) for re-entered functions
+        self.loop_probe = None    # optional callback(interp, frame, while_stmt) -> hashable progress snapshot or None
 
     # ---- bookkeeping ---------------------------------------------------
 
@@ -413,7 +414,25 @@ class Interp:
             v = self._fold_memo[key]
             if v is _IN_PROGRESS:
                 raise InterpError('cyclic constant %r' % (key,))
-            return v
+            return self._materialise(vref, v)
+        v = self._fold_value_uncached(vref, key)
+        return self._materialise(vref, v)
+
+    def _materialise(self, vref, v):
+        """A module-level mutable container is copied into the run's global state on first
+        use, so that in-place updates (`x[:] = ...`, `.clear()`, `.insert`) are per run and
+        visible to later reads, and the memoised import-time value stays pristine."""
+        if vref.owner is None and type(v) in (list, dict, set):
+            v = type(v)(v)
+            self.gstate[(vref.modname, vref.name)] = v
+        return v
+
+    def global_value(self, modname, name):
+        if (modname, name) in self.gstate:
+            return self.gstate[(modname, name)]
+        return self.ref_to_value(self.model.resolve(modname, name), modname, name)
+
+    def _fold_value_uncached(self, vref, key):
         if not vref.exprs:
             v = Unknown('%s.%s' % (vref.modname, vref.name))
             self._fold_memo[key] = v
@@ -1139,13 +1158,19 @@ class Interp:
 
     def st_While(self, st, frame):
         n = 0
+        snaps = []
         while True:
             if not self.truth(self.eval(st.test, frame)):
                 self.exec_block(st.orelse, frame)
                 return
             n += 1
+            if self.loop_probe is not None:
+                snaps.append(self.loop_probe(self, frame, st))
             if n > self.while_bound:
                 self.note('loop-truncated', getattr(st, 'lineno', 0))
+                if snaps and snaps[0] is not None and len(set(snaps)) == 1:
+                    # every explored iteration began in the same probed state: the loop makes no progress
+                    raise Raised(ExcVal('NonTermination', ('while %s' % ast.unparse(st.test)[:60], snaps[0])), st)
                 raise LoopTruncated(st)
             try:
                 self.exec_block(st.body, frame)
